@@ -396,6 +396,81 @@ def run(seed, tier, lean) -> Result:
                     {'spec': s, 'what': what, 'impl_err': raised, 'generated_err': gout[i]['model'].get('error')}))
     return res
 
+def _hand_same(mo, obs):
+    """the comparison of `run` between the Lean hand model and the implementation"""
+    return not ('error' in mo or any(sorted(map(json.dumps, mo[k])) != sorted(map(json.dumps, obs[k])) for k in ('assocs', 'links')) or
+                mo['isSub'] != obs['isSub'] or mo['lookups'] != obs['lookups'] or
+                [[a[0], sorted(a[1]), a[2], a[3], sorted(a[4])] for a in mo['assets']] != [[a[0], sorted(a[1]), a[2], a[3], sorted(a[4])] for a in obs['assets']])
+
+def genexec_measure(seed: int, n: int) -> dict:
+    """seeded experiment (tools/genexec_seeded.py): n languages of the quick check and their ill-formed mutants on the
+    (mutated) implementation, the hand model and the (regenerated) generated code"""
+    from maltoolbox.language import LanguageGraph
+    from ..common import time_limit, CaseTimeout
+    rnd = random.Random(seed)
+    stats = {'cases': 0, 'impl_ne_hand': 0, 'gen_follows_impl': 0, 'gen_ne_impl': 0, 'impl_crash': 0, 'examples': []}
+    def note(kind, info):
+        if len([e for e in stats['examples'] if e[0] == kind]) < 2: stats['examples'].append([kind, info])
+    cases = []
+    for i in range(n):
+        r = random.Random(rnd.getrandbits(48))
+        same_ends = i % 5 == 4
+        spec = LangGen(r, knobs={'sibling_sets': True, 'dup_assoc_names': 0.4, 'subtype': 0.8, **({'same_field_both_ends': 0.6} if same_ends else {})}).gen()
+        fields = sorted({d['leftField'] for d in spec['associations']} | {d['rightField'] for d in spec['associations']})
+        types = [a['name'] for a in spec['assets']]
+        quads = []
+        for d in spec['associations']:
+            subsL = [t for t in types if d['leftAsset'] in anc(spec, t)]; subsR = [t for t in types if d['rightAsset'] in anc(spec, t)]
+            quads.append([d['leftField'], d['rightField'], r.choice(subsL), r.choice(subsR)])
+            quads.append([d['rightField'], d['leftField'], r.choice(subsR), r.choice(subsL)])
+        for _ in range(10): quads.append([r.choice(fields), r.choice(fields), r.choice(types + ['Nope']), r.choice(types)])
+        cases.append((spec, quads, r))
+    gq = [gen_queries(s, q, i) for i, (s, q, r) in enumerate(cases)]
+    hand, gen = genexec.run_both([{'op': 'langgraph', 'case': i, 'lang': lang_payload(s), 'lookups': q} for i, (s, q, r) in enumerate(cases)],
+                                 'gen_langgraph', rewrite=lambda p: {**p, 'queries': True, **gq[p['case']]})
+    muts = [m for (s, q, r) in cases for m in mutants(s, r)]
+    mhand, mgen = genexec.run_both([{'op': 'langgraph', 'case': i, 'lang': lang_payload(s), 'lookups': []} for i, (w, s) in enumerate(muts)], 'gen_langgraph')
+    def build(spec):
+        try:
+            with time_limit(20): return LanguageGraph(copy.deepcopy(spec)), None
+        except RecursionError: return None, 'RecursionError'
+        except CaseTimeout: return None, 'timeout'
+        except Exception as e: return None, type(e).__name__
+    def classify(hand_same, gen_same, info):
+        if not gen_same: stats['gen_ne_impl'] += 1; note('gen!=impl', info)
+        if not hand_same:
+            stats['impl_ne_hand'] += 1
+            if gen_same: stats['gen_follows_impl'] += 1; note('gen=impl!=hand', info)
+    for i, (spec, quads, r) in enumerate(cases):
+        stats['cases'] += 1
+        if 'error' in hand[i] or 'error' in gen[i]:
+            note('driver-error', [hand[i].get('error'), gen[i].get('error')]); continue
+        mo, go = hand[i]['model'], gen[i]['model']
+        lg, raised = build(spec)
+        if raised == 'timeout':
+            stats['impl_crash'] += 1; note('impl-crash', 'the constructor does not return within 20 s'); continue
+        if lg is None:
+            classify('error' in mo, go.get('error') == gen_class(raised),
+                     {'spec': spec, 'impl_err': raised, 'hand_err': mo.get('error'), 'gen_err': go.get('error', 'returns')})
+            continue
+        try: hs = _hand_same(mo, observe(lg, quads)); herr = None
+        except Exception as e: hs = False; herr = type(e).__name__
+        if 'error' in go: what = 'the generated code raises ' + go['error']
+        else: what = gen_compare(gen_picture(lg), gen_answers(lg, quads, gq[i], spec), go, gq[i])[0]
+        classify(hs, what is None, {'spec': spec, 'quads': quads, 'gen_differs': what, 'hand_same': hs, 'observe_raises': herr})
+    for i, (w, s) in enumerate(muts):
+        stats['cases'] += 1
+        if 'error' in mhand[i] or 'error' in mgen[i]:
+            note('driver-error', [mhand[i].get('error'), mgen[i].get('error')]); continue
+        mo, go = mhand[i]['model'], mgen[i]['model']
+        lg, raised = build(s)
+        if raised == 'timeout':
+            stats['impl_crash'] += 1; note('impl-crash', f'the constructor does not return within 20 s ({w})'); continue
+        if lg is None: gs = go.get('error') == gen_class(raised)
+        else: gs = 'error' not in go and gen_compare(gen_picture(lg), None, go, None)[0] is None
+        classify((lg is None) == ('error' in mo), gs, {'spec': s, 'what': w, 'impl_err': raised, 'hand_err': mo.get('error'), 'gen_err': go.get('error', 'returns')})
+    return stats
+
 def check_witness(w):
     spec = w['spec']
     obs, lg = impl_obs(spec, [])
